@@ -68,6 +68,11 @@ fixed("C13","acc7223","C13:store_to_array_name","'tab = 5;' / 'tab++;' on an arr
 fixed("C13","2fde23b","pin:goto_undefined_label","'goto nowhere;' was accepted and emitted JMP .nowhere with no such label")
 fixed("C13","ef0c9a9","pin:continue_in_switch_in_dowhile","'do { switch (a) { case 1: continue; } } while (c);' jumped to .dowhileconditionN, a label that was never emitted")
 
+fixed("C01","5a7a314","pin:else_after_short_circuit","the else branch of 'if (a && b)' inherited the flag knowledge of the last test although && / || jump to it from several tests")
+fixed("C13","93aa1e9","C13:inline_function_name_as_value","'x = g ^ f;' with an inline f emitted '#<f', a symbol no emitted routine defines")
+
+fixed("C09","b9f09de","pin:escaped_backslash_then_escaped_quote","the string scanner took the escaped quote of \"a\\\\\\\"b\" for the end of the literal; in a skipped #if region a /* after it swallowed the following lines")
+
 # ---------------- recorded, not repaired (each has a pinned witness in harness/src/pins.rs and a
 # generator rule that keeps the random pools out of the family)
 C01=[
